@@ -257,6 +257,36 @@ def step (s : S) (line : String) : S × String :=
         let r := avgSubsetConnectivity (α := Float) (pid s.m) rows V maxc th sampled
         (s, s!"ok {fbits r.1} {fbits r.2}")
     | none => (s, "bad-op")
+  | "ragged" :: _ =>      -- the matrix / averaging routines on sequences that need not be aligned: statuses, NULL outputs, averages
+    match arg? ws "seqs", argNat? ws "max" with
+    | some sq, some maxc =>
+      let parse := fun (t : String) => if t == "-" then some ([] : Row) else
+        (parseHexNat t).bind fun _ => if t.length % 2 != 0 then none else
+          some ((List.range (t.length / 2)).map fun i =>
+            UInt8.ofNat (((hexVal (t.toList.getD (2 * i) '0')).getD 0) * 16 + ((hexVal (t.toList.getD (2 * i + 1) '0')).getD 0)))
+      match (sq.splitOn ",").mapM parse with
+      | none => (s, "bad-op")
+      | some rws =>
+        let bad := fun (r : Row) => (s.mode == 0 && r.any (· == 0)) || (s.mode != 0 && r.any (fun c => c.toNat ≥ s.abc.Kp))
+        let K := if s.mode == 0 then (argNat? ws "k").getD 4 else s.abc.K
+        if rws.isEmpty || maxc < 1 || K < 2 || rws.any bad then (s, "bad-op") else
+        let n := rws.length
+        let sampled := if n ≤ 1 || exhaustive n maxc then [] else samplePairs n maxc (Rng.create .mersenne 42) []
+        let vis := visitedPairs n maxc sampled
+        let mxSt := if unalignedVisited rws (allPairs n) then "einval" else "ok"
+        let jcSt := match jcMxError (α := Float) s.jc K rws with
+          | some .einval => "einval" | some _ => "edivzero" | none => "ok"
+        let avgBad := unalignedVisited rws vis
+        let z := fbits 0.0
+        -- Average{Id,Match} in the sampling branch on unaligned input is not driven (the C code leaks its generator there)
+        let skip := n > 1 && !exhaustive n maxc && unalignedVisited rws (allPairs n)
+        let avgid := if skip then "skip" else if avgBad then s!"einval:{z}" else s!"ok:{fbits (averageId (α := Float) s.m rws maxc sampled)}"
+        let avgm := if skip then "skip" else if avgBad then s!"einval:{z}" else s!"ok:{fbits (averageMatch (α := Float) s.m rws maxc sampled)}"
+        let conn := if s.mode == 0 then "-" else if avgBad then s!"einval:{z}:{z}" else
+          let r := avgConnectivity (α := Float) (pid s.m) rws maxc (argBits ws "th") sampled
+          s!"ok:{fbits r.1}:{fbits r.2}"
+        (s, s!"ok pidmx={mxSt} diffmx={mxSt} jcmx={jcSt} avgid={avgid} avgmatch={avgm} conn={conn}")
+    | _, _ => (s, "bad-op")
   | "upgma" :: _ =>
     match argNat? ws "n", arg? ws "d" with
     | some n, some dl =>
